@@ -125,31 +125,12 @@ impl SearchAlgorithm {
                 weight_factor: Some(Cost::ZERO),
             }
             .run_edge_oriented(src_id, dst_id_opt, query, direction, search_instance),
-            SearchAlgorithm::AStarAlgorithm { weight_factor } => {
-                let search_result = a_star_algorithm::run_a_star_edge_oriented(
-                    src_id,
-                    dst_id_opt,
-                    direction,
-                    *weight_factor,
-                    search_instance,
-                )?;
-                let routes = match dst_id_opt {
-                    None => vec![],
-                    Some(dst_id) => {
-                        let route = backtrack::edge_oriented_route(
-                            src_id,
-                            dst_id,
-                            &search_result.tree,
-                            search_instance.directed_graph.clone(),
-                        )?;
-                        vec![route]
-                    }
-                };
-                Ok(SearchAlgorithmResult {
-                    trees: vec![search_result.tree],
-                    routes,
-                    iterations: search_result.iterations,
-                })
+            // compose the route as [origin edge] + searched route + [destination edge], like the k-shortest-path
+            // algorithms do. re-deriving it from a vertex-keyed tree loses the origin edge when the searched
+            // route passes the origin edge's start vertex and the destination edge when the search already
+            // reached the destination edge's end vertex.
+            SearchAlgorithm::AStarAlgorithm { weight_factor: _ } => {
+                run_edge_oriented(src_id, dst_id_opt, query, direction, self, search_instance)
             }
             SearchAlgorithm::KspSingleVia {
                 k: _,
